@@ -210,6 +210,9 @@ func runC21(c Case, st *Stats) error {
 	if err != nil {
 		return fmt.Errorf("bad case: %v", err)
 	}
+	if underNativeFuzz {
+		r.Huge = false
+	}
 	dir := newDir("c21")
 	defer os.RemoveAll(dir)
 	path := filepath.Join(dir, "0.dat")
